@@ -110,14 +110,14 @@ theorem metadata_rows_eq (C : Codec α) (hC : CodecRoundTrips C) (policy : Optio
 
 /-- **Node metadata of the dated tables = the result's posterior mean/variance, node by node.** -/
 theorem node_metadata_eq (E : Env α) (hC : CodecRoundTrips E.codec) (hsort : ∀ t, SortRel t (E.sort t))
-    (o : Options) (t0 : TableCollection α) (r : Results α) (var : List α) (hvar : r.posteriorVar = some var)
+    (htimes : ∀ t, TimesRel t (E.computeTimes t)) (o : Options) (t0 : TableCollection α) (r : Results α) (var : List α) (hvar : r.posteriorVar = some var)
     (out : TableCollection α) (tr : Trace) (h : getModifiedTs E o t0 r = some (out, tr))
     (hw : tr.nodeMd = .written ∨ tr.nodeMd = .replaced) :
     out.nodes.map (fun n => E.codec.readMnVr out.nodesSchema n.metadata) =
       (r.posteriorMean.zip var).map some := by
   obtain ⟨t3, t5, t8, h3, h5, h8, rfl⟩ := getModifiedTs_some h
-  rw [(stageProv_fields E o t8).2.1, (stageProv_fields E o t8).2.2, (stageTskit_fields hsort h8).2.1,
-    (stageTskit_fields hsort h8).2.2, (stageCols_fields h5).2.1]
+  rw [(stageProv_fields E o t8).2.1, (stageProv_fields E o t8).2.2, (stageTskit_fields hsort htimes h8).2.1,
+    (stageTskit_fields hsort htimes h8).2.2.1, (stageCols_fields h5).2.1]
   have hmd5 : t5.nodes.map (·.metadata) = t3.nodes.map (·.metadata) := by
     have := congrArg (List.map Prod.snd) (stageCols_fields h5).2.2
     simpa [List.map_map, Function.comp_def] using this
@@ -162,8 +162,8 @@ pairs of the output is exactly the input's mutations paired, in input order, wit
 `mutation_posteriors()` is built from. (Stated for results whose `mutation_node` is the input column,
 i.e. phased singletons.) -/
 theorem mutation_metadata_eq (E : Env α) (hC : CodecRoundTrips E.codec)
-    (hsort : ∀ t, SortRel t (E.sort t)) (o : Options) (t0 : TableCollection α) (r : Results α)
-    (mean var : List α) (hmean : r.mutationMean = some mean) (hvar : r.mutationVar = some var)
+    (hsort : ∀ t, SortRel t (E.sort t)) (htimes : ∀ t, TimesRel t (E.computeTimes t)) (o : Options)
+    (t0 : TableCollection α) (r : Results α) (mean var : List α) (hmean : r.mutationMean = some mean) (hvar : r.mutationVar = some var)
     (out : TableCollection α) (tr : Trace) (h : getModifiedTs E o t0 r = some (out, tr))
     (hnode : r.mutationNode = t0.mutations.map (·.node))
     (hw : tr.mutMd = .written ∨ tr.mutMd = .replaced) :
@@ -172,11 +172,11 @@ theorem mutation_metadata_eq (E : Env α) (hC : CodecRoundTrips E.codec)
   obtain ⟨t3, t5, t8, h3, h5, h8, rfl⟩ := getModifiedTs_some h
   have s3 := stageMd_spec h3
   have hsch : (stageProv E o t8).mutationsSchema = t3.mutationsSchema := by
-    rw [(stageProv_fields E o t8).1, (stageTskit_fields hsort h8).1, (stageCols_fields h5).1]
+    rw [(stageProv_fields E o t8).1, (stageTskit_fields hsort htimes h8).1, (stageCols_fields h5).1]
   rw [hsch, (stageProv_frame E o t8).2]
   have hk : KeyOK (fun m : MutRow α => (m.key1, E.codec.readMnVr t3.mutationsSchema m.metadata)) :=
-    ⟨fun _ _ => rfl, fun _ _ => rfl⟩
-  refine (stageTskit_key _ hk hsort h8).trans ?_
+    ⟨fun x => ((x.1, x.2.1, x.2.2.1), E.codec.readMnVr t3.mutationsSchema x.2.2.2), fun _ => rfl⟩
+  refine (stageTskit_key _ hk hsort htimes h8).trans ?_
   rw [stageCols_key _ hk h5 (by rw [hnode, s3.2.2.1])]
   -- unfold the metadata stage
   unfold stageMd at h3
@@ -225,7 +225,7 @@ end Md
 /-- **maximization writes no time metadata**: without a variance array `set_time_metadata` returns
 at once, so node flags/population/individual/metadata and the schema come out as they went in. -/
 theorem maximization_writes_none {α : Type} (E : Env α) (hsort : ∀ t, SortRel t (E.sort t))
-    (o : Options) (t0 : TableCollection α) (r : Results α) (hn : r.posteriorVar = none)
+    (htimes : ∀ t, TimesRel t (E.computeTimes t)) (o : Options) (t0 : TableCollection α) (r : Results α) (hn : r.posteriorVar = none)
     (hm : r.mutationVar = none) (out : TableCollection α) (tr : Trace)
     (h : getModifiedTs E o t0 r = some (out, tr)) :
     tr = ⟨.skipped, .skipped⟩ ∧
@@ -241,8 +241,8 @@ theorem maximization_writes_none {α : Type} (E : Env α) (hsort : ∀ t, SortRe
   obtain ⟨hnodes, hsch⟩ := this.2.2.2.2 hk
   subst hout
   constructor
-  · rw [(stageProv_fields E o t8).2.2, (stageTskit_fields hsort h8).2.2, (stageCols_fields h5).2.2, hnodes]
-  · rw [(stageProv_fields E o t8).2.1, (stageTskit_fields hsort h8).2.1, (stageCols_fields h5).2.1, hsch]
+  · rw [(stageProv_fields E o t8).2.2, (stageTskit_fields hsort htimes h8).2.2.1, (stageCols_fields h5).2.2, hnodes]
+  · rw [(stageProv_fields E o t8).2.1, (stageTskit_fields hsort htimes h8).2.1, (stageCols_fields h5).2.1, hsch]
 
 /-! ### inside_outside: probabilities and their mean / variance -/
 
